@@ -70,7 +70,10 @@ class C20(Prop):
                 elif k < 0.94: reqs.append((rng.choice(['GET', 'POST']), rng.choice(['/x', '/svg', '//', '/index.html']), b'+--+'))
                 else: reqs.append(('RAW', '', rng.choice([b'GARBAGE\r\n\r\n', b'GET\r\n\r\n', b'POST / HTTP/1.1\r\nContent-Length: 10\r\n\r\nab', b'\x00\x01\x02', b'GET / HTTP/9.9\r\n\r\n'])))
             # a fixed opening: every answer is the conversion of its own body, whatever was asked before
-            reqs = [('POST', '/', t.encode()) for t in history] + [('POST', '/', b'{a}\n# Legend:\na = {fill:red}\nb = {stroke:blue}\nc = {x:y}'), ('POST', '/', b'{b}\n# Legend:\nb = {fill:green}'), ('POST', '/', b'plain')] + reqs
+            # ... including three bodies whose answers are large (80 kB and more): whatever a worker keeps between requests must not leak into the next
+            wordy = '\n'.join(' '.join('w%d' % (j % 7) for j in range(18)) for _ in range(120))
+            reqs = [('POST', '/', t.encode()) for t in history] + [('POST', '/', b'{a}\n# Legend:\na = {fill:red}\nb = {stroke:blue}\nc = {x:y}'), ('POST', '/', b'{b}\n# Legend:\nb = {fill:green}'), ('POST', '/', b'plain')] \
+                + [('POST', '/', wordy.encode()), ('POST', '/', big[1].encode()), ('POST', '/', wordy.encode())] + reqs
             # the model's answers
             cases = []
             for i, (m, pth, body) in enumerate(reqs):
